@@ -340,7 +340,9 @@ func VerifC17Equivalence() {
 				sv := vspec.Val{Kind: "S", S: nd.StringN(nm+".vs", 1)}
 				shapes := []vspec.Val{sv, {Kind: "N", N: 10, NTxt: "1e1"}, {Kind: "B", B: nd.Bytes(nm+".vb", 1)}, {Kind: "BOOL", Bool: nd.Bool(nm + ".vbool")},
 					{Kind: "NULL"}, {Kind: "SS", SS: []string{sv.S}}, {Kind: "NS", NS: []int64{7}}, {Kind: "BS", BS: [][]byte{{1}}},
-					{Kind: "L", L: []vspec.Val{sv}}, {Kind: "M", M: map[string]vspec.Val{"x": sv}}, {Kind: "L", L: []vspec.Val{{Kind: "NS", NS: []int64{7}}}}}
+					{Kind: "L", L: []vspec.Val{sv}}, {Kind: "M", M: map[string]vspec.Val{"x": sv}}, {Kind: "L", L: []vspec.Val{{Kind: "NS", NS: []int64{7}}}},
+					// boundary members: the empty string, the empty binary (also nested), NULL inside a list
+					{Kind: "S", S: ""}, {Kind: "B", B: []byte{}}, {Kind: "L", L: []vspec.Val{{Kind: "B", B: []byte{}}, {Kind: "NULL"}}}, {Kind: "M", M: map[string]vspec.Val{"e": {Kind: "S", S: ""}}}}
 				v = shapes[nd.Choice(nm+".shape", len(shapes))]
 			}
 			if v.Kind == "N" && v.NTxt == "" {
